@@ -6,7 +6,7 @@ use crate::targets::Family;
 use crate::vnet::{Pick, Policy, RecvPoint};
 use std::net::SocketAddr;
 
-pub const SUBST: [u8; 9] = [0x00, 0x01, 0x02, 0x0A, 0x5C, 0x7F, 0x80, 0xFE, 0xFF];
+pub const SUBST: [u8; 10] = [0x00, 0x01, 0x02, 0x0A, 0x20, 0x5C, 0x7F, 0x80, 0xFE, 0xFF];
 pub const TAIL_ALPHABET: [u8; 8] = [0x00, 0x01, 0x0A, 0x5C, 0x80, 0xC3, 0xFE, 0xFF];
 /// a valid two-byte UTF-8 character, written over two bytes at every offset (byte-indexed string slicing)
 pub const UTF8_PAIR: [u8; 2] = [0xC3, 0xA9];
